@@ -28,7 +28,7 @@ PROPS = {
     'C16': ['F1', 'F2', 'F3', 'F4', 'F5', 'F6', 'F7', 'G6', 'R6', 'S4', 'H5', 'G5', 'G8', 'F8'],
     'C17': ['W1', 'M1', 'M2', 'M3', 'M4', 'M5', 'M6', 'H1'],
     'C18': ['S1', 'S3', 'S4', 'S5', 'S6', 'R1', 'R2', 'R3', 'R5', 'R6', 'R7', 'R9', 'L1', 'L2', 'L5', 'H2', 'H3', 'H4', 'H6', 'H8', 'O1', 'S0', 'R0', 'O2', 'S2', 'R4', 'S7', 'R8', 'S9', 'F1', 'F2', 'F3', 'F4', 'F5', 'F6', 'F7', 'L3', 'L4', 'L6', 'H5', 'H7', 'Q1', 'F8', 'G8', 'P1', 'P2', 'P3', 'P4', 'G3', 'G6', 'I0', 'I1'],
-    'C19': ['R0', 'R9', 'S9', 'R4', 'G3', 'Q1', 'R1', 'R2', 'H2', 'I0', 'I1'],
+    'C19': ['R0', 'R9', 'S9', 'R4', 'G3', 'Q1', 'R1', 'R2', 'H2', 'I0', 'I1', 'F2', 'F3', 'H3', 'H4', 'S4', 'L6'],
     'C20': ['T1', 'T2', 'T3', 'T4'],
 }
 
